@@ -25,7 +25,7 @@ type c17 struct{}
 func init() {
 	register(c17{})
 	expectedProbes["C17"] = []string{"mix:distinct-roots", "mix:own-cache", "mix:shared-hcache", "mix:shared-libcache", "mix:shared-readonly-doc", "mix:first-use", "lock-contended", "context-switches>10",
-		"policy:random", "policy:pct", "history-checked-linearizable", "schema-id-registered-in-shared-cache", "tasks>=4"}
+		"policy:random", "policy:pct", "history-checked-linearizable", "schema-id-registered-in-shared-cache", "tasks>=4", "ref-to-built-in-meta-schema"}
 }
 
 func (c17) ID() string { return "C17" }
@@ -59,6 +59,10 @@ func (c17) Gen(r *sim.RNG, tier string, idx int) *Scenario {
 	}
 	sc.Cfg = &cfg
 	sc.World = gen.Generate(r, cfg)
+	if r.Bool(0.25) {
+		// references to a built-in meta-schema: the one piece of state all callers share
+		injectRefs(sc.World, r, metaRefsSmall)
+	}
 	w := sc.World
 	nt := 2 + r.Intn(5)
 	if tier == "quick" && nt > 4 {
@@ -202,11 +206,16 @@ var cacheModel = porcupine.Model{
 		}
 		return out
 	},
-	Init: func() interface{} { return "" },
+	// the cache starts with content the history does not show (the two built-in meta-schemas):
+	// the initial value of a key is unknown ("?") and is fixed by the first read
+	Init: func() interface{} { return "?" },
 	Step: func(state, input, output interface{}) (bool, interface{}) {
 		in := input.(cacheIn)
 		if in.Set {
 			return true, in.Val
+		}
+		if state.(string) == "?" {
+			return true, output.(string)
 		}
 		return output.(string) == state.(string), state
 	},
@@ -236,6 +245,9 @@ func (c17) Run(sc *Scenario) *Verdict {
 		return runInFreshProcess(sc)
 	}
 	v.probe("mix:" + sc.Mix)
+	if b, _ := json.Marshal(w.Docs); strings.Contains(string(b), "json-schema.org/draft-04") || strings.Contains(string(b), "swagger.io/v2") {
+		v.probe("ref-to-built-in-meta-schema")
+	}
 	store := sim.NewStore(w.Docs, nil)
 	key := sc.OrderKeys[0]
 	sharedDoc, _ := DecodeRoot(w)
